@@ -32,7 +32,7 @@ def budgets(tier):
 
 
 def generate(rng, tier, idx):
-    w = gen_world(rng, n_models=(1, 6), n_wav=(5, 12), n_filters=(2, 4), n_ap=(2, 3), n_par=(1, 1), allow_gz=False, allow_subdir=False, allow_zero_band=True)
+    w = gen_world(rng, n_models=(1, 6), n_wav=(5, 12), n_filters=(1, 4), n_ap=(2, 3), n_par=(1, 1), allow_gz=False, allow_subdir=False, allow_zero_band=True)
     w['ext_n'] = rng.choice([3, 8])
     nf = len(w['filters'])
     n = rng.randint(1, 10)
